@@ -63,6 +63,17 @@ Section World.
   Definition natural_to_cartesian (cs : coord_sys) (p : vec3) : vec3 :=
     match cs with Cartesian => p | Spherical => spherical_to_cartesian p end.
 
+  (** great-circle distance of two points at the same radius (coordinate_systems/spherical.cc:109-131) *)
+  Definition dot3 (a b : vec3) : F :=
+    let '(ax, ay, az) := a in let '(bx, by_, bz) := b in
+    ((f0 + (ax * bx)) + (ay * by_)) + (az * bz).
+
+  Definition great_circle_distance (s1 s2 : vec3) : F :=
+    let '(r, _, _) := s1 in
+    let c1 := spherical_to_cartesian s1 in
+    let c2 := spherical_to_cartesian s2 in
+    r * facos (fmin f1 (fmax (- f1) (dot3 c1 c2 / (r * r)))).
+
   (** ** slot allocation (world.cc:421-480) *)
   Definition adiabat (w : world) (g depth : F) : F :=
     w_Tp w * fexp (((w_alpha w * g) / w_cp w) * depth).
